@@ -105,6 +105,17 @@ def main(ctx):
             for d in DELTAS:
                 for ms, prec in ((0, 3), (499.6, 3), (999.6, 3), (123.456, 6), (960.0, 1), (40.0, 1), (996.0, 2), (4.0, 2), (0.0, 0), (999.9996, 6), (99.996, 4)):
                     zjobs.append((z, T, o0, o1, d, ms, prec))
+    # zones without any transition (fixed offsets), among them names that END in a digit
+    import datetime
+    for z in ("Etc/GMT-3", "Etc/GMT+12", "GMT0", "Etc/GMT0", "Etc/UTC", "Etc/GMT-14"):
+        try:
+            off = int(zoneinfo.ZoneInfo(z).utcoffset(datetime.datetime(2020, 1, 1)).total_seconds())
+        except Exception:
+            continue
+        for T in (951782400, 1399326141):
+            for d in (0, 1, 3599):
+                for ms, prec in ((0, 3), (499.6, 3), (999.6, 3), (123.456, 6)):
+                    zjobs.append((z, T, off, off, d, ms, prec))
     zres = core.pmap(timeslib.zone_probe, zjobs, chunksize=64)
     fd, path = tempfile.mkstemp(prefix="times_", suffix=".ndjson")
     with os.fdopen(fd, "w") as f:
